@@ -1,11 +1,33 @@
-(* C05 - any single-bit change invalidates a signature
-   FULL STATEMENT: see DESIGN.md section 7 (binding reductions).  Not yet proved as a theorem about the composed
-   model; until then the property is decided by the differential streams of tools/streams.py
-   (real code against the extracted FIPS 204 transcription / the property's own oracle), and the
-   lemmas below are the part that is kernel-checked. *)
-Require Import F204.Base.Util F204.Base.Mach F204.Gen.Params F204.Spec.SpecConv F204.Spec.SpecRound F204.Proofs.KernelLemmas.
+(* C05 - any single-bit change invalidates a signature (strong binding).
+   Proved as reductions to explicit collisions (Proofs/Binding.v), for ANY change (not only one bit):
+   - message or context changed (any mode): C05_message_context_binding;
+   - public-key encoding changed: C05_public_key_binding (needs only that SHAKE256 output has the
+     requested length);
+   - a hint bit changed: the reconstructed commitment coefficient changes (C05_hint_bit_matters).
+   For changes inside the c~ or z section of the signature no such reduction exists (acceptance
+   would be a random-oracle fixed point / short-vector relation, not a collision); those positions,
+   like all others, are decided by the exhaustive flip scan of tools/streams.py. *)
+Require Import F204.Base.Util F204.Base.Mach F204.Gen.Params F204.Gen.Oids F204.Hash.HashIface
+  F204.Impl.MlDsa F204.Impl.Api F204.Spec.SpecConv F204.Spec.SpecRound F204.Proofs.KernelLemmas F204.Proofs.Binding.
 Open Scope Z_scope.
-(* a changed hint bit always changes the reconstructed commitment coefficient *)
-Theorem C05_hint_bit_matters_partial : forall g r, g = 95232 \/ g = 261888 -> UseHint g 1 r <> UseHint g 0 r.
+
+Theorem C05_message_context_binding : forall H P pk sig it M1 ctx1 M2 ctx2,
+  api_verify H P pk it M1 sig ctx1 = Ok true -> api_verify H P pk it M2 sig ctx2 = Ok true ->
+  (M1, ctx1) <> (M2, ctx2) -> shake256_collision H \/ prehash_collision H.
+Proof.
+  intros H P pk sig it M1 ctx1 M2 ctx2 V1 V2 Hne. eapply binding_interp; [exact V1|exact V2|].
+  intros E. injection E as -> ->. now apply Hne.
+Qed.
+
+Theorem C05_public_key_binding : forall H, HashLaws H -> forall P pkb1 pkb2 pk1 pk2 it M sig ctx,
+  pk_try_from_bytes H P pkb1 = Ok pk1 -> pk_try_from_bytes H P pkb2 = Ok pk2 -> pkb1 <> pkb2 ->
+  api_verify H P pk1 it M sig ctx = Ok true -> api_verify H P pk2 it M sig ctx = Ok true ->
+  shake256_collision H.
+Proof. exact binding_pk. Qed.
+
+Theorem C05_hint_bit_matters : forall g r, g = 95232 \/ g = 261888 -> UseHint g 1 r <> UseHint g 0 r.
 Proof. exact UseHint_flip. Qed.
-Print Assumptions C05_hint_bit_matters_partial.
+
+Print Assumptions C05_message_context_binding.
+Print Assumptions C05_public_key_binding.
+Print Assumptions C05_hint_bit_matters.
